@@ -89,4 +89,54 @@ theorem C18_unknown_harmless (t : Table) (i : Nat) (h : has t i = false) :
 example : (run [] [.create 1, .create 1, .workerIn 1, .workerIn 2, .delete 1, .workerIn 1, .create 1, .delete 7]).2
     = [.ok, .exists, .ok, .refused, .ok, .refused, .ok, .ok] := by decide
 
+/-! ## At most one context per id, at every moment of every history -/
+
+theorem not_has_iff (t : Table) (i : Nat) : has t i = false ↔ i ∉ t.map (·.1) := by
+  rw [← Bool.not_eq_true, has_iff]
+  simp
+
+theorem keys_step (t : Table) (op : Op) (h : (t.map (·.1)).Nodup) : ((step t op).1.map (·.1)).Nodup := by
+  cases op with
+  | create i =>
+    simp only [step]
+    by_cases hi : has t i = true
+    · simpa [hi] using h
+    · have hi' : has t i = false := by simpa using hi
+      simp only [hi', Bool.false_eq_true, if_false, List.map_append, List.map_cons, List.map_nil]
+      refine List.nodup_append.mpr ⟨h, by simp, ?_⟩
+      intro a ha b hb
+      simp at hb; subst hb
+      intro e; subst e
+      exact (not_has_iff t a).mp hi' ha
+  | delete i =>
+    simp only [step]
+    exact (List.filter_sublist.map _).nodup h
+  | workerIn i =>
+    simp only [step]
+    split <;> exact h
+
+/-- **C18 uniqueness.** Whatever the history of requests (duplicates, deletes of unknown ids,
+    re-registrations, workers in known and unknown contexts), the server's table never holds two
+    contexts under one id. -/
+theorem C18_unique (ops : List Op) : (((run [] ops).1).map (·.1)).Nodup := by
+  suffices h : ∀ t : Table, (t.map (·.1)).Nodup → (((run t ops).1).map (·.1)).Nodup from h [] (by simp)
+  induction ops with
+  | nil => intro t h; simpa [run] using h
+  | cons op ops ih =>
+    intro t h
+    simp only [run]
+    exact ih _ (keys_step t op h)
+
+/-- **C18 clean-up.** A delete leaves nothing of that id in the table (no entry survives that a
+    later worker request could reach), and touches no other context. -/
+theorem C18_delete_leaves_nothing (t : Table) (i : Nat) :
+    (∀ x ∈ (step t (.delete i)).1, x.1 ≠ i) ∧ ∀ x ∈ t, x.1 ≠ i → x ∈ (step t (.delete i)).1 := by
+  simp only [step]
+  constructor
+  · intro x hx; simpa using (List.mem_filter.mp hx).2
+  · intro x hx hne; exact List.mem_filter.mpr ⟨hx, by simpa using hne⟩
+
+example : ((run [] [.create 1, .create 2, .create 1, .delete 1, .create 1, .create 3, .delete 9]).1).map (·.1)
+    = [2, 1, 3] := by decide
+
 end PwVerif.C18
